@@ -57,6 +57,8 @@ func init() {
 		{"C07", "adder", props.C07adder},
 		{"C05", "adder", props.C07adder},
 		{"C17", "garble", props.C01},
+		{"C16", "garble", props.C01},
+		{"C18", "garble", props.C01},
 		{"C14", "constindex", props.ConstIndexGuarded("types", "circuit", "compiler/ast", "compiler")},
 		{"C08", "reslice", props.ResliceGrowth},
 		{"C17", "reslice", props.ResliceGrowth},
